@@ -53,16 +53,17 @@ IsLex(q) == Rec[q].u = "lex"
 \* starts, and a dozen references to the universe cost minutes.
 NeededIdx == {Rec[q].idx : q \in {p \in 1..N : IsLex(p)}}
 NoCase == [id |-> [fam |-> "-", a |-> "-", b |-> "-", n |-> 0], files |-> <<>>, req |-> "", must |-> FALSE, expect |-> "-"]
-LexTable == [i \in 1..NCases |-> IF Full \/ i \in NeededIdx THEN CaseAt(i) ELSE NoCase] \o <<>>
+MkLexTable(tb) == [i \in 1..tb.total |-> IF Full \/ i \in NeededIdx THEN CaseIn(tb, i) ELSE NoCase] \o <<>>
+LexTable == MkLexTable(SegTable)
 \* what the validation of record q needs to know about its case: does the record carry exactly the case the specification
 \* derives for its index; the text the run was started on; the bytes it must print when run ("-": it is only loaded)
+SummaryOf(c, q) == [ok |-> Rec[q].id = c.id /\ Rec[q].files = c.files /\ Rec[q].req = c.req,
+                    input |-> c.files[1].text, expect |-> c.expect]
+SummaryIn(tbl, q) == IF Rec[q].idx \in 1..Len(tbl) THEN SummaryOf(tbl[Rec[q].idx], q)
+                     ELSE [ok |-> FALSE, input |-> "", expect |-> "-"]
 CaseSummary(q) ==
     IF IsLex(q)
-    THEN IF Rec[q].idx \in 1..NCases
-         THEN LET c == LexTable[Rec[q].idx] IN
-              [ok |-> Rec[q].id = c.id /\ Rec[q].files = c.files /\ Rec[q].req = c.req,
-               input |-> c.files[1].text, expect |-> c.expect]
-         ELSE [ok |-> FALSE, input |-> "", expect |-> "-"]
+    THEN SummaryIn(LexTable, q)
     ELSE [ok |-> Rec[q].u \in {"corpus", "sem"} /\ Rec[q].id.fam = Rec[q].u /\ Rec[q].idx = q, input |-> Rec[q].id.a, expect |-> "-"]
 
 ASSUME TraceComplete == Full => {Rec[q].idx : q \in {p \in 1..N : IsLex(p)}} = 1..NCases /\ N = NCases
